@@ -145,3 +145,5 @@ def run(ck):
     ck.run_rule("C01.T5", "index words of 'a-b(r)' operands are the expression as written (a difference of labels stays base-free)", 8, c01.rule_T5)
     from ..rules import treeimm
     ck.run_rule("G4.re", "a tree compiled at a second base yields the second base's values (no value of the first compilation survives on a node)", 15, treeimm.rule_reresolve)
+    from ..rules import thunks
+    ck.run_rule("G1", "PC-relative thunks read the rel_address of their own operand (captured by value, state never updated in place)", 20, thunks.rule_G1)
